@@ -950,3 +950,90 @@ Proof.
   - intros [H1 H2]. split; auto. intros ->. tauto.
   - intros [H1 H2]. split; auto. intros [-> _]. congruence.
 Qed.
+
+(* ---------- look-ups inside a stable prefix are invariant under unrelated operations ----------
+   The sequential fact behind the concurrent stress part of the C08 check: if P (owned by x) is the
+   longest stored prefix containing the address a, then no Insert / Remove / RemoveByPeer that
+   leaves (P, x) alone and does not add a LONGER prefix containing a changes the answer for a. *)
+Definition stable (t : trie) (a P : bits) (x : peer) : Prop :=
+  wf [] t /\ In (P, x) (contents t) /\ prefixb P a = true /\
+  forall p z, In (p, z) (contents t) -> prefixb p a = true -> length p <= length P.
+
+Lemma lpm_intro (cs : amap) a P x :
+  NoDup (map fst cs) -> In (P, x) cs -> prefixb P a = true ->
+  (forall p z, In (p, z) cs -> prefixb p a = true -> length p <= length P) ->
+  lpm cs a = Some (length P, x).
+Proof.
+  intros Hnd Hin Hp Hmax. destruct (lpm cs a) as [[n z]|] eqn:E.
+  - destruct (lpm_some _ _ _ _ E) as [(p' & Hin' & Hp' & Hl') Hmax'].
+    pose proof (Hmax p' z Hin' Hp'). pose proof (Hmax' P x Hin Hp).
+    assert (p' = P) by (eapply prefixb_same_len; eauto; lia). subst p'.
+    assert (z = x) by (eapply nodup_keys_fun; eauto). subst. reflexivity.
+  - rewrite (lpm_none _ _ E P x Hin) in Hp. discriminate.
+Qed.
+
+Lemma stable_lookup t a P x : stable t a P x -> lookup t a = Some x.
+Proof.
+  intros (Hwf & Hin & Hp & Hmax). rewrite (lookup_is_lpm t [] a Hwf).
+  rewrite (lpm_intro (contents t) a P x); auto. eapply keys_nodup; eauto.
+Qed.
+
+Lemma stable_insert t a P x q y : stable t a P x ->
+  q <> P -> ~ (prefixb q a = true /\ length P < length q) -> stable (insert t q y) a P x.
+Proof.
+  intros (Hwf & Hin & Hp & Hmax) Hne Hnl. split; [apply wf_insert; auto|]. split; [|split; auto].
+  - apply (in_insert t [] q y P x Hwf eq_refl). right. split; auto.
+  - intros p z Hpz Hpa. apply (in_insert t [] q y p z Hwf eq_refl) in Hpz as [[-> ->]|[_ Hold]]; eauto.
+    destruct (Nat.le_gt_cases (length q) (length P)); auto. exfalso. apply Hnl. split; auto.
+Qed.
+
+Lemma stable_remove t a P x q y : stable t a P x -> q <> P \/ y <> x -> stable (remove t q y) a P x.
+Proof.
+  intros (Hwf & Hin & Hp & Hmax) Hne. split; [apply wf_remove; auto|]. split; [|split; auto].
+  - apply (in_remove t [] q y P x Hwf). split; auto. intros [-> ->]. destruct Hne; congruence.
+  - intros p z Hpz Hpa. apply (in_remove t [] q y p z Hwf) in Hpz as [Hold _]. eauto.
+Qed.
+
+Lemma stable_remove_by_peer t a P x z : stable t a P x -> z <> x -> stable (remove_by_peer t z) a P x.
+Proof.
+  intros (Hwf & Hin & Hp & Hmax) Hne. split; [apply wf_remove_by_peer; auto|]. split; [|split; auto].
+  - apply (in_remove_by_peer t [] z P x Hwf). split; auto.
+  - intros p w Hpw Hpa. apply (in_remove_by_peer t [] z p w Hwf) in Hpw as [Hold _]. eauto.
+Qed.
+
+(* an operation that may run concurrently with look-ups of [a] without being able to change their answer *)
+Definition unrelated_op (f : fam) (a P : bits) (x : peer) (o : op) : Prop :=
+  match o with
+  | Insert g b c y => g <> f \/ (mask b c <> P /\ ~ (prefixb (mask b c) a = true /\ length P < length (mask b c)))
+  | Remove g b c y => g <> f \/ mask b c <> P \/ y <> x
+  | RemoveByPeer z => z <> x
+  end.
+
+Lemma fam_dec (f g : fam) : {f = g} + {f <> g}.
+Proof. decide equality. Qed.
+
+Lemma sel_upd_other s f g t : g <> f -> sel (upd s g t) f = sel s f.
+Proof. destruct f, g; intros H; try reflexivity; contradiction. Qed.
+
+Lemma stable_step s f a P x o : stable (sel s f) a P x -> unrelated_op f a P x o ->
+  stable (sel (fst (step s o)) f) a P x.
+Proof.
+  intros Hst Hun. destruct o as [g b c y|g b c y|z]; cbn [step fst unrelated_op] in *.
+  - destruct (fam_dec g f) as [->|Hgf]; [|rewrite sel_upd_other; auto].
+    rewrite sel_upd. destruct Hun as [Hun|[H1 H2]]; [contradiction|]. apply stable_insert; auto.
+  - destruct (fam_dec g f) as [->|Hgf]; [|rewrite sel_upd_other; auto].
+    rewrite sel_upd. destruct Hun as [Hun|Hun]; [contradiction|]. apply stable_remove; auto.
+  - destruct f; cbn [sel t4 t6] in *; apply stable_remove_by_peer; auto.
+Qed.
+
+Theorem lookup_stable_under_unrelated_ops : forall (churn : list op) s f a P x,
+  stable (sel s f) a P x -> Forall (unrelated_op f a P x) churn ->
+  stable (sel (final step s churn) f) a P x /\ tlookup (final step s churn) f a = Some x.
+Proof.
+  induction churn as [|o churn IH]; intros s f a P x Hst Hall.
+  - unfold final. cbn [run fst]. split; auto. apply stable_lookup in Hst. exact Hst.
+  - inversion Hall as [|? ? Ho Hrest]; subst.
+    change (o :: churn) with ([o] ++ churn). rewrite final_app.
+    apply IH; auto. unfold final at 1. cbn [run]. destruct (step s o) as [s1 r] eqn:E. cbn [fst].
+    change s1 with (fst (s1, r)). rewrite <- E. apply stable_step; auto.
+Qed.
